@@ -9,6 +9,7 @@ import (
 	"sort"
 	"strconv"
 	"strings"
+	"sync"
 	"time"
 )
 
@@ -149,13 +150,46 @@ func (c *Check) Execute(t Tier) int {
 		// path from genesis, no restore): that is what a real node executing this history does. A
 		// discrepancy seen only on a re-used, restored instance is an artefact of state the
 		// application keeps outside its database (C01's subject), not a violation of this property.
+		// Candidates arrive in BFS order (shortest first), grouped here by kind and signature; each
+		// group is confirmed in parallel batches until two counterexamples reproduce.
+		groups := map[string][]Violation{}
+		var order []string
 		for _, v := range vs {
-			if !r.S.Confirm(v) {
-				fmt.Fprintf(os.Stderr, "UNCONFIRMED: %s path %v does not reproduce on a fresh application: %s: %s\n", r.S.Name, v.Path, v.Disc.Kind, v.Disc.Detail)
-				unconfirmed++
-				continue
+			k := v.Disc.Kind + fmt.Sprint(v.Disc.Sig)
+			if _, ok := groups[k]; !ok {
+				order = append(order, k)
 			}
-			all = append(all, v)
+			groups[k] = append(groups[k], v)
+		}
+		for _, k := range order {
+			g := groups[k]
+			got := 0
+			for i := 0; i < len(g) && got < 2; i += 16 {
+				j := i + 16
+				if j > len(g) {
+					j = len(g)
+				}
+				ok := make([]bool, j-i)
+				var wg sync.WaitGroup
+				for x := i; x < j; x++ {
+					wg.Add(1)
+					go func(x int) { defer wg.Done(); ok[x-i] = r.S.Confirm(g[x]) }(x)
+				}
+				wg.Wait()
+				for x := i; x < j; x++ {
+					if !ok[x-i] {
+						if unconfirmed < 5 {
+							fmt.Fprintf(os.Stderr, "UNCONFIRMED: %s path %v does not reproduce on a fresh application: %s: %s\n", r.S.Name, g[x].Path, g[x].Disc.Kind, g[x].Disc.Detail)
+						}
+						unconfirmed++
+						continue
+					}
+					if got < 2 {
+						got++
+						all = append(all, g[x])
+					}
+				}
+			}
 		}
 		fmt.Fprintf(os.Stderr, "[%s] scenario %s: states=%d transitions=%d depth=%d closed=%v exhaustive=%v replayed=%d dead=%d foreign=%v wall=%.1fs %s\n",
 			c.ID, st.Scenario, st.States, st.Transitions, st.DepthCompleted, st.Closed, st.Exhaustive, st.Replayed, st.DeadStates, st.Foreign, st.WallS, st.StoppedBy)
